@@ -599,13 +599,10 @@ namespace link_layer {
         // invalid LLID
         if ( ( header & 0x3 ) != 0 )
         {
+            // The PDU failed its integrity check and is not stored, so it must not be acknowledged:
+            // next_expected_sequence_number_ stays as it is (if the PDU is a resent one, it is already
+            // acknowledged by the current value). Only the acknowledgement of our last PDU is used.
             acknowledge( header & nesn_flag );
-
-            // resent PDU?
-            if ( static_cast< bool >( header & sn_flag ) == next_expected_sequence_number_ )
-            {
-                next_expected_sequence_number_ = !next_expected_sequence_number_;
-            }
         }
 
         return next_transmit();
